@@ -23,6 +23,8 @@ import (
 	"math/rand"
 	"net"
 	"os"
+	"os/exec"
+	"regexp"
 	"runtime"
 	"sort"
 	"strings"
@@ -326,6 +328,8 @@ func (vaAddr) String() string  { return "verif" }
 type vaPC struct {
 	in     chan []byte
 	nb, nu atomic.Int64 // broadcast / unicast frames written
+	ipMu   sync.Mutex
+	byIP   map[string]int // broadcast (unsolicited) frames per sender address
 	lb, lu int64        // counts at the last take()
 	closed chan struct{}
 	once   sync.Once
@@ -348,6 +352,15 @@ func (p *vaPC) WriteTo(b []byte, _ net.Addr) (int, error) {
 	}
 	if e.Destination.String() == ethernet.Broadcast.String() {
 		p.nb.Add(1)
+		var pkt arp.Packet
+		if pkt.UnmarshalBinary(e.Payload) == nil {
+			p.ipMu.Lock()
+			if p.byIP == nil {
+				p.byIP = map[string]int{}
+			}
+			p.byIP[pkt.SenderIP.String()]++
+			p.ipMu.Unlock()
+		}
 	} else {
 		p.nu.Add(1)
 	}
@@ -1142,4 +1155,305 @@ func TestVerifSpamQueue(t *testing.T) {
 	out.Stat("spamqueue_service_events", int(progress.Load()))
 	out.Stat("spamqueue_status_fetches", int(fetched.Load()))
 	out.Case(0, "spam-queue", "tt", map[string]any{"capacity1": capacity, "capacity2": cap2, "services": services, "events": progress.Load()})
+}
+
+// ---------------------------------------------------------------- the REAL interface rescan
+
+func vaIP(args ...string) error {
+	out, err := exec.Command("ip", args...).CombinedOutput()
+	if err != nil {
+		return fmt.Errorf("ip %v: %v %s", args, err, out)
+	}
+	return nil
+}
+
+func vaHasLinkLocal(name string) bool {
+	ifi, err := net.InterfaceByName(name)
+	if err != nil || ifi.Flags&net.FlagUp == 0 {
+		return false
+	}
+	addrs, _ := ifi.Addrs()
+	for _, ad := range addrs {
+		if n, ok := ad.(*net.IPNet); ok && n.IP.To4() == nil && n.IP.IsLinkLocalUnicast() {
+			return true
+		}
+	}
+	return false
+}
+
+// TestVerifRescan drives the REAL Announce.updateInterfaces (real raw sockets, real responders)
+// on a veth pair created for the test, interleaved with announce / withdraw: interfaces that
+// appear after addresses were announced, go down, come back.  After every step the kernel's
+// multicast membership per (interface, solicited-node group), the responder sets and the
+// answers are checked against the statement and shipped to the model (Model/AnnouncerExt.v
+// [rescan]).  Needs CAP_NET_ADMIN; skipped (counted) otherwise.  First scenario = corpus
+// witness of F29 (corpus/C13/F29-late-ndp-responder.json).
+func TestVerifRescan(t *testing.T) {
+	out := vOpen()
+	defer out.Close()
+	r := vRand()
+	tag := os.Getpid() % 100000
+	ifA, ifB := fmt.Sprintf("vf%da", tag), fmt.Sprintf("vf%db", tag)
+	exec.Command("ip", "link", "del", ifA).Run()
+	if err := vaIP("link", "add", ifA, "type", "veth", "peer", "name", ifB); err != nil {
+		out.Stat("rescan_skipped:cannot-create-veth", 1)
+		return
+	}
+	defer exec.Command("ip", "link", "del", ifA).Run()
+	exec.Command("sysctl", "-qw", "net.ipv6.conf."+ifA+".accept_dad=0", "net.ipv6.conf."+ifB+".accept_dad=0").Run()
+	// every other interface of the machine is excluded from the rescan
+	var others []string
+	all, _ := net.Interfaces()
+	for _, ifi := range all {
+		if ifi.Name != ifA && ifi.Name != ifB {
+			others = append(others, regexp.QuoteMeta(ifi.Name))
+		}
+	}
+	a := VerifNewQueue(log.NewNopLogger(), nil, 1<<12)
+	defer a.VerifClose()
+	if !a.VerifExclude(regexp.MustCompile("^(" + strings.Join(others, "|") + ")$")) {
+		out.Stat("rescan_skipped:no-exclude-field", 1)
+		return
+	}
+	ifID := map[string]int{ifA: 1, ifB: 2}
+	w := vaSpec{}
+	type step struct {
+		what string
+		coq  string
+	}
+	var steps []string
+	var trace []string
+	failed := false
+	fail := func(sig, what string) {
+		if !failed {
+			failed = true
+			out.Fail(sig, what, map[string]any{"steps": trace, "interfaces": []string{ifA, ifB},
+				"how": "./check C13 (TestVerifRescan: real updateInterfaces on a veth pair; needs root)"})
+		}
+	}
+	waitLL := func(names ...string) {
+		for end := time.Now().Add(4 * time.Second); time.Now().Before(end); time.Sleep(50 * time.Millisecond) {
+			ok := true
+			for _, n := range names {
+				ok = ok && vaHasLinkLocal(n)
+			}
+			if ok {
+				return
+			}
+		}
+	}
+	observe := func(ev, what string) {
+		trace = append(trace, what)
+		arps, ndps := a.VerifResponders()
+		sort.Strings(arps)
+		sort.Strings(ndps)
+		var obs []string
+		// answers
+		for _, ip := range append(append([]string{}, vaV6...), vaV4[0], vaNever6) {
+			for _, intf := range []string{ifA, ifB} {
+				got := a.VerifShouldAnnounce(net.ParseIP(ip), intf)
+				want := w.answer(ip, intf)
+				if got != want {
+					fail("l2-rescan-answer", fmt.Sprintf("after %q: shouldAnnounce(%s, %s) = %d, want %d", what, ip, intf, got, want))
+				}
+				obs = append(obs, cCtor("OShould", vaCoqIP(ip), cNi(ifID[intf]), vaDrops[got]))
+			}
+		}
+		// kernel membership per (interface, group): 1 iff the interface has an NDP responder and an
+		// announced address maps to the group
+		seen := map[uint64]bool{}
+		for _, ip := range vaV6 {
+			g := vaGroupN(ip)
+			if seen[g] {
+				continue
+			}
+			seen[g] = true
+			announced := false
+			for _, ip2 := range vaV6 {
+				if vaGroupN(ip2) == g && w.holders(ip2) > 0 {
+					announced = true
+				}
+			}
+			for _, intf := range []string{ifA, ifB} {
+				has := false
+				for _, n := range ndps {
+					has = has || n == intf
+				}
+				want := 0
+				if has && announced {
+					want = 1
+				}
+				got, ok := vaKernelMembers(intf, vaGroupKey(ip))
+				if !ok {
+					out.Stat("blackbox_skipped:igmp6", 1)
+					continue
+				}
+				out.Stat("rescan_membership_checked", 1)
+				if want == 1 {
+					out.Stat("rescan_membership_joined", 1)
+				}
+				if got != want {
+					fail("l2-rescan-membership", fmt.Sprintf("after %q: %d sockets joined to %s on %s (kernel), want %d (NDP responder there: %v, group announced: %v)", what, got, vaGroupKey(ip), intf, want, has, announced))
+				}
+				obs = append(obs, cCtor("OMem", cNi(ifID[intf]), cN(g), cZ(int64(got))))
+			}
+		}
+		steps = append(steps, cPair(ev, cList(obs)))
+	}
+	set := func(svc int, adv vaAdv) {
+		w.apply(vaOp{Kind: "set", Svc: svc, Adv: adv})
+		a.SetBalancer(vaSvcs[svc], adv.real())
+		a.VerifDrainSpam()
+		ids := []int{}
+		for _, n := range adv.Ifs {
+			ids = append(ids, ifID[n])
+		}
+		sort.Ints(ids)
+		observe(cCtor("CSet", cNi(svc), cCtor("mk_adv", vaCoqIP(adv.IP), cBool(adv.All), cListN(ids))), fmt.Sprintf("SetBalancer %s %s all=%v %v", vaSvcs[svc], adv.IP, adv.All, adv.Ifs))
+	}
+	del := func(svc int) {
+		w.apply(vaOp{Kind: "del", Svc: svc})
+		a.DeleteBalancer(vaSvcs[svc])
+		observe(cCtor("CDel", cNi(svc)), "DeleteBalancer "+vaSvcs[svc])
+	}
+	rescan := func(what string) {
+		a.VerifUpdateInterfaces()
+		arps, ndps := a.VerifResponders()
+		var ar, nd []int
+		for _, n := range arps {
+			ar = append(ar, ifID[n])
+		}
+		for _, n := range ndps {
+			nd = append(nd, ifID[n])
+		}
+		sort.Ints(ar)
+		sort.Ints(nd)
+		out.Stat("rescan_steps", 1)
+		if len(nd) > 0 {
+			out.Stat("rescan_with_ndp_responders", 1)
+		}
+		observe(cCtor("CRescan", cListN(ar), cListN(nd)), fmt.Sprintf("%s; updateInterfaces -> ARP %v NDP %v", what, arps, ndps))
+	}
+	up := func(names ...string) {
+		for _, n := range names {
+			if err := vaIP("link", "set", n, "up"); err != nil {
+				panic(err)
+			}
+		}
+		waitLL(names...)
+	}
+	down := func(n string) {
+		if err := vaIP("link", "set", n, "down"); err != nil {
+			panic(err)
+		}
+		time.Sleep(100 * time.Millisecond)
+	}
+	allIf := func(ip string) vaAdv { return vaAdv{IP: ip, All: true} }
+
+	// F29 witness: announced before the interfaces exist, then they come up
+	rescan("no interface up yet")
+	set(0, allIf(vaV6[0]))
+	set(1, allIf(vaV4[0]))
+	up(ifA, ifB)
+	rescan("veth pair up")
+	set(2, vaAdv{IP: vaV6[2], Ifs: []string{ifA}})
+	set(1, allIf(vaV6[1])) // second address in the group of vaV6[0]
+	down(ifA)
+	rescan(ifA + " down")
+	del(0)
+	up(ifA)
+	rescan(ifA + " up again")
+	del(1)
+	// a few random steps
+	for k := 0; k < 6; k++ {
+		switch r.Intn(4) {
+		case 0:
+			set(r.Intn(3), allIf(vaV6[r.Intn(len(vaV6))]))
+		case 1:
+			del(r.Intn(3))
+		case 2:
+			down(ifA)
+			rescan(ifA + " down")
+		default:
+			up(ifA)
+			rescan(ifA + " up")
+		}
+	}
+	out.Case(0, "rescan", cCtor("mk_xcase", cNi(0), cList(steps)), map[string]any{"steps": trace})
+}
+
+func (p *vaPC) sentFor(ip string) int {
+	p.ipMu.Lock()
+	defer p.ipMu.Unlock()
+	return p.byIP[net.ParseIP(ip).String()]
+}
+
+// ---------------------------------------------------------------- the REAL spam loop
+
+// TestVerifSpamLoop: the real spamLoop goroutine (1.1 s ticker) with two ARP responders over
+// in-process connections.  Statement (C13_x_withdraw_last / C13_x_unsolicited_sound): an
+// unsolicited announcement is sent right away for a new address and repeated at the next tick
+// on the responders the LATEST advertisement covers; after the last holder is withdrawn nothing
+// more is sent for the address, whatever the loop still has queued or is repeating.
+func TestVerifSpamLoop(t *testing.T) {
+	out := vOpen()
+	defer out.Close()
+	a := VerifNewQueue(log.NewNopLogger(), vaIfs, 64)
+	defer a.VerifClose()
+	pcs := []*vaPC{vaNewPC(), vaNewPC()}
+	for i, pc := range pcs {
+		if err := a.VerifAddARP(i, vaIfs[i], vaMACs[i], pc); err != nil {
+			panic(err)
+		}
+	}
+	a.VerifStartSpamLoop()
+	A, B, C := vaV4[0], vaV4[1], vaV4[2]
+	var trace []string
+	fail := func(what string) {
+		out.Fail("l2-spamloop", what, map[string]any{"steps": trace, "how": "./check C13 (TestVerifSpamLoop, real spamLoop, 1.1 s ticker)"})
+	}
+	count := func(ip string) [2]int { return [2]int{pcs[0].sentFor(ip), pcs[1].sentFor(ip)} }
+	step := func(s string) { trace = append(trace, s) }
+	all := func(ip string) IPAdvertisement { return NewIPAdvertisement(net.ParseIP(ip), true, sets.New[string]()) }
+
+	step("SetBalancer s0 A all; SetBalancer s1 B all; SetBalancer s2 B all; SetBalancer s3 C all")
+	a.SetBalancer(vaSvcs[0], all(A))
+	a.SetBalancer(vaSvcs[1], all(B))
+	a.SetBalancer(vaSvcs[2], all(B))
+	a.SetBalancer(vaSvcs[3], all(C))
+	time.Sleep(250 * time.Millisecond)
+	if c := count(A); c != [2]int{2, 2} {
+		fail(fmt.Sprintf("right after announcing A: %v broadcast frames for A on (eth0, eth1), want 2 each (request+reply)", c))
+	}
+	step("DeleteBalancer s3 (last holder of C); DeleteBalancer s1 (one of two holders of B); SetBalancer s0 A only eth0")
+	a.DeleteBalancer(vaSvcs[3])
+	a.DeleteBalancer(vaSvcs[1])
+	a.SetBalancer(vaSvcs[0], NewIPAdvertisement(net.ParseIP(A), false, sets.New(vaIfs[0])))
+	time.Sleep(150 * time.Millisecond)
+	a0, b0, c0 := count(A), count(B), count(C)
+	step("one tick of the spam loop (1.1 s)")
+	time.Sleep(1300 * time.Millisecond)
+	a1, b1, c1 := count(A), count(B), count(C)
+	out.Stat("spamloop_tick_frames_A", a1[0]-a0[0])
+	if c1 != c0 {
+		fail(fmt.Sprintf("unsolicited announcements for C continue after its last holder was withdrawn: %v -> %v", c0, c1))
+	}
+	if b1[0] <= b0[0] || b1[1] <= b0[1] {
+		fail(fmt.Sprintf("unsolicited announcements for B stopped although one of two holders remains: %v -> %v", b0, b1))
+	}
+	if a1[0] <= a0[0] {
+		fail(fmt.Sprintf("A is not repeated on eth0 at the tick: %v -> %v", a0, a1))
+	}
+	if a1[1] != a0[1] {
+		fail(fmt.Sprintf("A is still announced on eth1 after it was re-announced for eth0 only: %v -> %v", a0, a1))
+	}
+	step("DeleteBalancer s2 (last holder of B), then another tick")
+	a.DeleteBalancer(vaSvcs[2])
+	time.Sleep(100 * time.Millisecond)
+	b2 := count(B)
+	time.Sleep(1200 * time.Millisecond)
+	if b3 := count(B); b3 != b2 {
+		fail(fmt.Sprintf("unsolicited announcements for B continue after its last holder was withdrawn: %v -> %v", b2, b3))
+	}
+	out.Case(0, "spam-loop", "tt", map[string]any{"steps": trace, "A": count(A), "B": count(B), "C": count(C)})
 }
